@@ -9,26 +9,46 @@ import vlib
 from gen import canon as G
 
 ID = "C18"
-PROPS = ["IsoVerif/Props/C18.lean", "IsoVerif/Props/C18Strand.lean", "IsoVerif/Props/C18Window.lean"]
-TARGETS = ["IsoVerif.Props.C18", "IsoVerif.Props.C18Strand", "IsoVerif.Props.C18Window"]
-GEN_DEPS = ["Constants"]
+PROPS = ["IsoVerif/Props/C18.lean", "IsoVerif/Props/C18Strand.lean", "IsoVerif/Props/C18Window.lean",
+         "IsoVerif/Props/C18Attr.lean"]
+TARGETS = ["IsoVerif.Props.C18", "IsoVerif.Props.C18Strand", "IsoVerif.Props.C18Window", "IsoVerif.Props.C18Attr"]
+GEN_DEPS = ["Constants", "GeneAttributes"]
 LEVEL = "proof"
 RULE = ("in-process: random reference sequences over {A,C,G,T,N} in mixed case with planted GT-AG/GC-AG/AT-AC/CT-AC/CT-GC/GT-AT "
         "and near-miss pairs, introns inside / across / outside the sequence, random query histories re-using introns on "
         "'+', '-' and '.'; exhaustive universe: all 2-base x 2-base site pairs over {A,C,G,T,N,a,c,g,t} on both strands; "
         "a case is non-trivial when the model returns a non-error value, model == implementation and at least one "
         "answer of the history is True / one strand is not '.'; distinct by (op, input). "
+        "attr_lines: small reference annotations (real in-memory gffutils db) whose transcripts carry random attributes incl. "
+        "stale / repeated / empty Canonical values, known + novel models through the real create_extended_storage or GeneInfo + "
+        "set_reference_sequence (windows also ending beyond the contig), real add_canonical_info and GFFPrinter.dump; non-trivial "
+        "when a reference transcript that carries Canonical is printed with a recomputed True/False; "
         "pipeline: --check_canonical runs on synthetic genomes with antisense gene pairs sharing introns (all "
-        "--report_canonical levels), every Canonical flag and novel strand recomputed from the FASTA")
+        "--report_canonical levels), every Canonical flag and novel strand recomputed from the FASTA; re-runs whose --genedb is "
+        "the extended annotation of the first run with one Canonical value falsified (exactly one Canonical attribute per "
+        "transcript line, equal to the recomputed value); monitor of the interface hypothesis ReadOk on every record of "
+        "read_assignments.tsv / corrected_reads.bed")
 TRUSTED = ["Gen/Constants.lean CANONICAL_FWD/REV_SITES are re-extracted from src/common.py each run and pinned to the literal "
            "GT-AG/GC-AG/AT-AC (+ reverse complements) by theorem tables_literal",
            "Python str slicing s[a:b] (negative indices, clamping) = Model.pySlice (cross-checked each run on out-of-range introns)",
            "pyfaidx FastaRecord slicing = str slicing for in-range coordinates (cross-checked each run on a scratch FASTA)",
-           "ASCII reference sequences: str.upper() = Char.toUpper per character"]
+           "ASCII reference sequences: str.upper() = Char.toUpper per character",
+           "Gen/GeneAttributes.lean (skip lists of GeneInfo.set_gene_attributes, key words Canonical / exons) is re-extracted from "
+           "src/gene_info.py, src/assignment_io.py, src/transcript_printer.py each run, cross-checked against the BEHAVIOUR of the live "
+           "set_gene_attributes on stub features (gencheck) and pinned by theorem skip_tables_literal",
+           "gffutils: the attributes of a GTF line are an ordered dict key -> list of values in line order (a repeated key is merged "
+           "under its first occurrence, `key \"\";` gives an empty list); exercised each run by the attr_lines correspondence through "
+           "a real in-memory gffutils database created with the options of src/gtf2db.py"]
 ASSUMPTIONS = ["reference sequences are ASCII (FASTA)", "the strand argument is one of '+', '-', '.'",
                "dict semantics: first insertion wins until overwritten; modelled as an association list with lookup of the newest entry",
                "reading rule (DESIGN §6): a record whose reported strand is '.' has an unconstrained Canonical flag",
-               "reading: a lower-case (soft-masked) base is the same nucleotide as its upper-case form"]
+               "reading: a lower-case (soft-masked) base is the same nucleotide as its upper-case form",
+               "reading: 'the Canonical attribute of a transcript model' = the transcript line carries exactly one Canonical attribute "
+               "(a GTF reader may keep the first or the last value of a repeated key) and it is the recomputed flag",
+               "reading (docs/C18.md; to be moved to DESIGN §6): for an annotated intron chain the novel strand is the annotated "
+               "strand - the splice-site strand of an annotated single-strand intron is its annotated strand",
+               "interface hypothesis ReadOk (Props/C18Window): exon lists of loaded reads are sorted, disjoint, well formed, start >= 1 - "
+               "proved for the producers by C16 exons_sorted_wf / C14 corrected_always_valid and monitored on every pipeline run of the oracle"]
 
 STRANDS = "+-."
 
@@ -102,32 +122,123 @@ def _flag_of(txt):
     return {"True": True, "False": False, "Unspliced": "Unspliced"}.get(txt, txt)
 
 
+def parse_gtf_multi(path):
+    """-> list of dict(chr, feature, start, end, strand, attrs{key: [every value of the key, in line order]}).
+    `pipeline.parse_gtf` keeps ONE value per key (as most GTF readers do); the clause "exactly one Canonical attribute per
+    transcript line" needs all of them."""
+    res = []
+    with open(path) as f:
+        for l in f:
+            if l.startswith("#") or not l.strip():
+                continue
+            p = l.rstrip("\n").split("\t")
+            attrs = {}
+            for kv in p[8].strip().split(";"):
+                kv = kv.strip()
+                if not kv:
+                    continue
+                k, _, v = kv.partition(" ")
+                attrs.setdefault(k, []).append(v.strip('"'))
+            res.append({"chr": p[0], "feature": p[2], "start": int(p[3]), "end": int(p[4]), "strand": p[6], "attrs": attrs})
+    return res
+
+
+def parse_gtf_lines(path):
+    """-> list of dict(feature, pairs = [(key, value), ...] in line order)"""
+    res = []
+    with open(path) as f:
+        for l in f:
+            if l.startswith("#") or not l.strip():
+                continue
+            p = l.rstrip("\n").split("\t")
+            pairs = []
+            for kv in p[8].strip().split(";"):
+                kv = kv.strip()
+                if kv:
+                    k, _, v = kv.partition(" ")
+                    pairs.append((k, v.strip('"')))
+            res.append({"feature": p[2], "pairs": pairs})
+    return res
+
+
+def _a1(attrs, key):
+    """first value of an attribute (None when absent)"""
+    v = attrs.get(key)
+    return v[0] if v else None
+
+
 def _gtf_transcripts(path):
-    import pipeline
-    recs = pipeline.parse_gtf(path)
+    """transcript id -> {chr, strand, attrs (multi-valued), exons, exon_canonical: the Canonical values seen on its exon lines}"""
     tx = {}
-    for r in recs:
-        tid = r["attrs"].get("transcript_id")
+    for r in parse_gtf_multi(path):
+        tid = _a1(r["attrs"], "transcript_id")
         if r["feature"] == "transcript":
-            tx.setdefault(tid, {"exons": []}).update(chr=r["chr"], strand=r["strand"], attrs=r["attrs"])
+            tx.setdefault(tid, {"exons": [], "exon_canonical": []}).update(chr=r["chr"], strand=r["strand"], attrs=r["attrs"])
         elif r["feature"] == "exon":
-            tx.setdefault(tid, {"exons": []})["exons"].append((r["start"], r["end"]))
+            t = tx.setdefault(tid, {"exons": [], "exon_canonical": []})
+            t["exons"].append((r["start"], r["end"]))
+            t["exon_canonical"] += r["attrs"].get("Canonical", [])
     return tx
 
 
-def check_pipeline_outputs(ds, outdir, prefix, with_genedb):
-    """-> (list of (kind, detail-dict), stats)"""
+def read_ok_violation(exons, chr_len):
+    """run-time monitor of the interface hypothesis `ReadOk` of Props/C18Window.lean for one exon list: sorted and pairwise
+    disjoint (`SD`: every block ends strictly before the next one starts), well formed (`WFl`: start <= end), inside the
+    chromosome (1 <= start, end <= length).  -> None or a short description of the broken clause"""
+    for a, b in exons:
+        if a > b:
+            return "WFl: block %d-%d" % (a, b)
+        if a < 1 or b > chr_len:
+            return "inside the chromosome: block %d-%d, length %d" % (a, b, chr_len)
+    for i in range(len(exons) - 1):
+        if not exons[i][1] < exons[i + 1][0]:
+            return "SD: blocks %d-%d, %d-%d" % (exons[i] + exons[i + 1])
+    return None
+
+
+def _bed_exons(row):
+    """BED12 record of corrected_reads.bed -> 1-based closed exon blocks, in file order"""
+    st = int(row[1])
+    sizes = [int(x) for x in row[10].split(",") if x]
+    starts = [int(x) for x in row[11].split(",") if x]
+    return [(st + b + 1, st + b + sz) for b, sz in zip(starts, sizes)]
+
+
+def check_pipeline_outputs(ds, outdir, prefix, with_genedb, rerun=False):
+    """-> (list of (kind, detail-dict), stats).  `rerun`: the reference of this run was the extended annotation of an earlier
+    --check_canonical run (the novel-strand clauses, which need the annotation of the data set, are not evaluated then)"""
     import pipeline
     fails = []
     stats = {"read_flags": 0, "read_flags_true": 0, "read_flags_false": 0, "read_flags_unspliced": 0, "read_dot": 0,
              "model_flags": 0, "model_flags_true": 0, "model_flags_false": 0, "novel_models": 0, "novel_strand_checked": 0,
-             "antisense_pairs_flag_differs": 0}
+             "antisense_pairs_flag_differs": 0, "readok_exon_lists": 0, "readok_corrected_lists": 0,
+             "readok_spliced": 0}
     files = pipeline.out_files(outdir, prefix)
     ra = files.get("%s.read_assignments.tsv" % prefix)
     if not ra and with_genedb:
         return [("pipeline_output_missing", {"file": "read_assignments.tsv"})], stats
     seen_per_intron = {}
+    # monitor of `ReadOk` (hypothesis of loaded_flag_is_chromosome_flag): the corrected exon list of every record of
+    # corrected_reads.bed and (below) the exon list of every record of read_assignments.tsv, exactly as printed
+    bed = files.get("%s.corrected_reads.bed" % prefix)
+    for row in (pipeline.read_bed(bed) if bed else []):
+        if len(row) < 12 or row[0] not in ds.chroms:
+            fails.append(("interface_ReadOk_violated", {"file": "corrected_reads.bed", "record": row[:12], "clause": "BED12 record"}))
+            continue
+        cex = _bed_exons(row)
+        stats["readok_corrected_lists"] += 1
+        stats["readok_spliced"] += 1 if len(cex) > 1 else 0
+        bad = read_ok_violation(cex, len(ds.chroms[row[0]]))
+        if bad or not cex:
+            fails.append(("interface_ReadOk_violated", {"file": "corrected_reads.bed", "read": row[3], "chr": row[0],
+                                                        "exons": cex, "clause": bad or "empty exon list"}))
     for row in (pipeline.read_assignments(ra) if ra else []):     # no read assignments without an annotation
+        if row.get("exons") not in (None, "", "."):
+            stats["readok_exon_lists"] += 1
+            bad = read_ok_violation(_parse_exons(row["exons"]), len(ds.chroms[row["chr"]]))
+            if bad:
+                fails.append(("interface_ReadOk_violated", {"file": "read_assignments.tsv", "read": row["read_id"],
+                                                            "chr": row["chr"], "exons": row["exons"], "clause": bad}))
         info = row.get("additional_info", "")
         flag = None
         for kv in info.split():
@@ -181,28 +292,44 @@ def check_pipeline_outputs(ds, outdir, prefix, with_genedb):
         for tid, t in _gtf_transcripts(path).items():
             if "attrs" not in t:
                 continue
-            flag = t["attrs"].get("Canonical")
+            flags = t["attrs"].get("Canonical", [])
             introns = _introns(t["exons"])
             seq = ds.chroms[t["chr"]]
-            if flag is None:
+            exp = expected_flag(seq, introns, t["strand"])
+            if not flags:
                 fails.append(("model_flag_missing", {"file": fn, "transcript": tid}))
             else:
-                flag = _flag_of(flag)
-                exp = expected_flag(seq, introns, t["strand"])
                 stats["model_flags"] += 1
                 if introns and min(e[0] for e in t["exons"]) <= 25:
                     stats["spliced_model_flags_at_contig_start"] = stats.get("spliced_model_flags_at_contig_start", 0) + 1
                 if introns and max(e[1] for e in t["exons"]) >= len(seq) - 3:
                     stats["spliced_model_flags_at_contig_end"] = stats.get("spliced_model_flags_at_contig_end", 0) + 1
+                # "exactly one Canonical attribute per transcript line" (a reader that keeps the last value of a repeated key
+                # must see the same flag as one that keeps the first)
+                if len(flags) != 1:
+                    fails.append(("canonical_attr_not_unique", {"file": fn, "transcript": tid, "chr": t["chr"], "strand": t["strand"],
+                                                                "values": flags, "expected": exp, "introns": introns,
+                                                                "contradicting": len(set(flags)) > 1}))
                 if exp is not None:
                     if exp in (True, False):
                         stats["model_flags_" + ("true" if exp else "false")] += 1
-                    if flag != exp:
+                    # ... "and it equals the recomputed value": every value on the line
+                    if any(_flag_of(v) != exp for v in flags):
                         fails.append(("model_canonical_flag", {"file": fn, "transcript": tid, "chr": t["chr"],
-                                                               "strand": t["strand"], "introns": introns, "flag": flag,
+                                                               "strand": t["strand"], "introns": introns,
+                                                               "flag": [_flag_of(v) for v in flags] if len(flags) > 1 else _flag_of(flags[0]),
                                                                "expected": exp,
                                                                "pairs": [pair_at(seq, it) for it in introns]}))
                     by_exons.setdefault((t["chr"], tuple(introns)), {})[t["strand"]] = exp
+            # exon lines repeat the reference attributes of their transcript: a Canonical value there must be the same flag
+            if t["exon_canonical"]:
+                stats["exon_lines_with_canonical"] = stats.get("exon_lines_with_canonical", 0) + len(t["exon_canonical"])
+                if exp is not None and any(_flag_of(v) != exp for v in t["exon_canonical"]):
+                    fails.append(("exon_line_canonical_flag", {"file": fn, "transcript": tid, "chr": t["chr"], "strand": t["strand"],
+                                                               "values": sorted(set(t["exon_canonical"])), "expected": exp}))
+            if rerun:
+                stats["rerun_model_lines"] = stats.get("rerun_model_lines", 0) + 1
+                continue
             is_novel = tid.endswith(".nic") or tid.endswith(".nnic")
             if novel_check and is_novel and introns:
                 stats["novel_models"] += 1
@@ -213,7 +340,7 @@ def check_pipeline_outputs(ds, outdir, prefix, with_genedb):
                 ann = [known_introns.get((t["chr"], it), set()) for it in introns]
                 reads = model_reads.get(tid, [])
                 tails = "".join(read_tail.get(r, "") for r in reads)
-                gs = gene_strand.get(t["attrs"].get("gene_id"))
+                gs = gene_strand.get(_a1(t["attrs"], "gene_id"))
                 s = t["strand"]
                 ev = {"+": sst.count("+") + sum(1 for a in ann if "+" in a) + tails.count("+") + (1 if gs == "+" else 0),
                       "-": sst.count("-") + sum(1 for a in ann if "-" in a) + tails.count("-") + (1 if gs == "-" else 0)}
@@ -234,8 +361,28 @@ def check_pipeline_outputs(ds, outdir, prefix, with_genedb):
     return fails, stats
 
 
+def falsify_reference(src, dst):
+    """copy an extended_annotation.gtf written with --check_canonical, inverting the Canonical value of the first spliced
+    transcript line that has a definite one (stands for an annotation written on another assembly / by an older version);
+    -> (transcript id, value written) or None"""
+    import re
+    flipped = None
+    with open(src) as f, open(dst, "w") as o:
+        for l in f:
+            if flipped is None and "\ttranscript\t" in l:
+                m = re.search(r'Canonical "(True|False)"', l)
+                if m:
+                    new = "False" if m.group(1) == "True" else "True"
+                    flipped = (re.search(r'transcript_id "([^"]+)"', l).group(1), new)
+                    l = l.replace(m.group(0), 'Canonical "%s"' % new, 1)
+            o.write(l)
+    return flipped
+
+
 def pipeline_case(inp):
-    """run the real pipeline on the dataset described by `inp`; -> (failures, stats)"""
+    """run the real pipeline on the dataset described by `inp`; -> (failures, stats).
+    With `inp["rerun"]`: a second run whose --genedb is the extended annotation of the first (--check_canonical) run with one
+    Canonical value falsified; the failures / stats of the second run are appended"""
     import pipeline
     ds, _ = G.antisense_dataset(inp["seed"], n_chroms=inp.get("n_chroms", 2), loci_per_chrom=inp.get("loci", 4),
                                 reads_per_tx=inp.get("reads_per_tx", 5), lower_frac=inp.get("lower_frac", 0.0))
@@ -244,13 +391,33 @@ def pipeline_case(inp):
         paths = ds.write(os.path.join(d, "data"))
         out = os.path.join(d, "out")
         extra = ["--check_canonical"] + list(inp.get("args", []))
-        rc, log = pipeline.run_isoquant(out, pipeline.std_args(paths, prefix="S", threads=inp.get("threads", 1),
-                                                               data_type=inp.get("data_type", "nanopore"),
-                                                               genedb=inp.get("genedb", True), extra=extra),
-                                        env={"PYTHONHASHSEED": inp.get("hashseed", 0)})
+        env = {"PYTHONHASHSEED": inp.get("hashseed", 0)}
+        kw = dict(prefix="S", threads=inp.get("threads", 1), data_type=inp.get("data_type", "nanopore"))
+        rc, log = pipeline.run_isoquant(out, pipeline.std_args(paths, genedb=inp.get("genedb", True), extra=extra, **kw), env=env)
         if rc != 0:
             return [("pipeline_crashed", {"rc": rc, "log": log[-1500:]})], {}
-        return check_pipeline_outputs(ds, out, "S", inp.get("genedb", True))
+        fails, stats = check_pipeline_outputs(ds, out, "S", inp.get("genedb", True))
+        if inp.get("rerun"):
+            ext = pipeline.out_files(out, "S").get("S.extended_annotation.gtf")
+            if not ext:
+                return fails + [("pipeline_output_missing", {"file": "extended_annotation.gtf"})], stats
+            ref2 = os.path.join(d, "data", "ref2.gtf")
+            flipped = falsify_reference(ext, ref2)
+            out2 = os.path.join(d, "out2")
+            rc, log = pipeline.run_isoquant(out2, pipeline.std_args(dict(paths, gtf=ref2), genedb=True, extra=extra, **kw), env=env)
+            if rc != 0:
+                return fails + [("pipeline_crashed", {"rc": rc, "run": "second", "log": log[-1500:]})], stats
+            f2, s2 = check_pipeline_outputs(ds, out2, "S", True, rerun=True)
+            for k_, d_ in f2:
+                d_.update(run="second (reference = extended annotation of the first run)", falsified=flipped)
+            fails += f2
+            stats = dict(stats)
+            stats["rerun_runs"] = 1
+            stats["rerun_falsified"] = 1 if flipped else 0
+            for k_, v_ in s2.items():
+                if k_.startswith(("model_flags", "rerun_", "exon_lines", "readok_")):
+                    stats["rerun:" + k_ if not k_.startswith("rerun_") else k_] = v_
+        return fails, stats
     finally:
         shutil.rmtree(d, ignore_errors=True)
 
@@ -494,6 +661,135 @@ def impl_detector(kw, chr_record=None):
     return {"out": outs, "dict": sorted([[list(k), v] for k, v in sd.strand_dict.items()], key=lambda e: json.dumps(e[0]))}
 
 
+# ---- the attribute list of printed transcript lines: real gffutils -> real GeneInfo (set_gene_attributes) -> real
+# ---- IOSupport.add_canonical_info -> real GFFPrinter.dump
+
+def _gtf_attr_text(pairs):
+    return " ".join('%s "%s";' % (k, v) for k, v in pairs)
+
+
+def attr_reference_gtf(kw):
+    """the reference annotation of an `attr_lines` case as GTF text (gene, transcript, exon lines)"""
+    lines = []
+    for g in kw["genes"]:
+        lo = min(e[0] for t in g["transcripts"] for e in t["exons"])
+        hi = max(e[1] for t in g["transcripts"] for e in t["exons"])
+        lines.append("chr1\tsyn\tgene\t%d\t%d\t.\t%s\t.\t%s" % (lo, hi, g["strand"], _gtf_attr_text([["gene_id", g["gene_id"]]] + g["attrs"])))
+        for t in g["transcripts"]:
+            ids = [["gene_id", g["gene_id"]], ["transcript_id", t["id"]]]
+            lines.append("chr1\tsyn\ttranscript\t%d\t%d\t.\t%s\t.\t%s" % (t["exons"][0][0], t["exons"][-1][1], g["strand"],
+                                                                               _gtf_attr_text(ids + t["attrs"])))
+            for i, e in enumerate(t["exons"]):
+                lines.append("chr1\tsyn\texon\t%d\t%d\t.\t%s\t.\t%s" % (e[0], e[1], g["strand"],
+                                                                         _gtf_attr_text(ids + [["exon_number", str(i + 1)]] + t.get("exon_attrs", []))))
+    return "\n".join(lines) + "\n"
+
+
+def ref_attrs_for_model(pairs):
+    """what gffutils hands on for the attribute column `pairs` (harness-side rule, exercised against the real gffutils by
+    the correspondence): keys in line order, the values of a repeated key under its first occurrence in line order, an empty
+    value gives no value"""
+    out, idx = [], {}
+    for k, v in pairs:
+        if k not in idx:
+            idx[k] = len(out)
+            out.append([k, []])
+        if v != "":
+            out[idx[k]][1].append(v)
+    return out
+
+
+def attr_model_kw(kw):
+    """the driver's view of an `attr_lines` case: known models (one per reference transcript) then the novel ones"""
+    models = []
+    for g in kw["genes"]:
+        for t in g["transcripts"]:
+            models.append({"gene_id": g["gene_id"], "transcript_id": t["id"], "exons": t["exons"], "strand": g["strand"], "info": [],
+                           "ref": ref_attrs_for_model([["gene_id", g["gene_id"]], ["transcript_id", t["id"]]] + t["attrs"])})
+    for m in kw["novel"]:
+        models.append(dict(m, ref=None))
+    return {"chrom": kw["chrom"], "start": kw["start"], "end": kw["end"], "check": kw["check"], "models": models}
+
+
+def impl_attr_lines(kw):
+    import gffutils
+    import tempfile
+    import src.transcript_printer as TP
+    import src.id_policy as IDP
+    M = _impl()
+    io = M.AIO.IOSupport(types.SimpleNamespace())
+    db = gffutils.create_db(attr_reference_gtf(kw), ":memory:", from_string=True, force=True, keep_order=True,
+                            merge_strategy="error", sort_attribute_values=True, disable_infer_transcripts=True,
+                            disable_infer_genes=True)
+    novel = []
+    for m in kw["novel"]:
+        t = M.GI.TranscriptModel("chr1", m["strand"], m["transcript_id"], m["gene_id"], tl(m["exons"]),
+                                 M.GI.TranscriptModelType.novel_not_in_catalog)
+        for k, v in m["info"]:
+            t.add_additional_attribute(k, v)
+        novel.append(t)
+    if kw["path"] == "extended":
+        # the extended-annotation pass: whole-chromosome gene info, one model per reference transcript + the novel ones
+        all_models, gi = TP.create_extended_storage(db, "chr1", kw["chrom"], novel)
+    else:
+        # the per-locus pass: gene info of the locus' genes with the window of the locus
+        gi = M.GI.GeneInfo(list(db.features_of_type("gene", order_by="start")), db, delta=0)
+        gi.set_reference_sequence(kw["start"], kw["end"], kw["chrom"])
+        all_models = [M.GI.TranscriptModel.from_reference_transcript(gi, i) for i in gi.all_isoforms_exons.keys()] + novel
+    if kw["check"]:
+        io.add_canonical_info(all_models, gi)
+    d = tempfile.mkdtemp(prefix="isoverif_C18at_")
+    prev = TP.logger.level
+    TP.logger.setLevel(100)          # "Gene and transcript records have unequal strands" for the random novel models
+    try:
+        pr = TP.GFFPrinter(d, "S", IDP.FeatureIdStorage(IDP.SimpleIDDistributor(), db, "chr1", "exon"), output_r2t=False,
+                           check_canonical=kw["check"])
+        pr.dump(gi, all_models)
+        pr.out_gff.flush()
+        out = {}
+        for r in parse_gtf_lines(os.path.join(d, "S.transcript_models.gtf")):
+            if r["feature"] == "transcript":
+                tid = [v for k, v in r["pairs"] if k == "transcript_id"][0]
+                out.setdefault(tid, []).append([list(x) for x in r["pairs"]])
+        del pr
+    finally:
+        TP.logger.setLevel(prev)
+        shutil.rmtree(d, ignore_errors=True)
+    return {"out": out, "memo": _memo(gi)}
+
+
+def impl_attr_tables():
+    """the skip lists / key words read off the behaviour of the live code (gencheck.live_gene_attribute_tables) + the key
+    GFFPrinter.dump adds to a model"""
+    import gencheck
+    import tempfile
+    import src.transcript_printer as TP
+    import src.id_policy as IDP
+    M = _impl()
+    live = gencheck.live_gene_attribute_tables(None)
+    t = M.GI.TranscriptModel("chr1", "+", "t", "g", [(1, 4), (15, 18)], M.GI.TranscriptModelType.novel_not_in_catalog)
+    d = tempfile.mkdtemp(prefix="isoverif_C18at_")
+    try:
+        pr = TP.GFFPrinter(d, "S", IDP.FeatureIdStorage(IDP.SimpleIDDistributor()), output_r2t=False)
+        pr.dump(M.GI.GeneInfo.from_region("chr1", 1, 18), [t])
+        del pr
+    finally:
+        shutil.rmtree(d, ignore_errors=True)
+    keys = list(t.additional_info.keys())
+    live["exons_key"] = keys[0] if len(keys) == 1 else keys
+    return live
+
+
+def attr_canon_model_out(kw_model, mo):
+    """model output (list in model order) -> {transcript id: [attribute list of each of its lines]}"""
+    if not isinstance(mo, dict) or "out" not in mo:
+        return mo
+    out = {}
+    for m, line in zip(kw_model["models"], mo["out"]):
+        out.setdefault(m["transcript_id"], []).append(line)
+    return dict(mo, out=out)
+
+
 def impl_call(op, kw):
     M = _impl()
     try:
@@ -515,6 +811,10 @@ def impl_call(op, kw):
             return impl_model_info(kw)
         if op == "read_fields":
             return impl_read_fields(kw)
+        if op == "attr_lines":
+            return impl_attr_lines(kw)
+        if op == "attr_tables":
+            return impl_attr_tables()
     except (IndexError, AssertionError, ZeroDivisionError, KeyError, ValueError, TypeError, AttributeError) as ex:
         return {"error": "error", "exc": type(ex).__name__ + ": " + str(ex)[:200]}
     raise RuntimeError("unknown op " + op)
@@ -528,11 +828,15 @@ def canon_model_out(op, mo):
         mo = dict(mo, dict=dedupe_first(mo["dict"], 1))
     if op == "tables" and isinstance(mo, dict):
         mo = {k: sorted(v) for k, v in mo.items()}
+    if op == "attr_tables" and isinstance(mo, dict) and "transcript_skip" in mo:
+        mo = {k: (sorted(v) if isinstance(v, list) else v) for k, v in mo.items()}
     return mo
 
 
 def model_kw(op, kw):
     """what the driver gets: the `novel` sub-operations carry the ordered candidate list instead of the dicts"""
+    if op == "attr_lines":
+        return attr_model_kw(kw)
     if op != "detector":
         return kw
     ops = []
@@ -663,7 +967,8 @@ def gen_cases(ctx, rng=None):
         n = rng.choice([40, 60, 120])
         chrom, introns = G.planted_sequence(rng, n=n, start=1)
         start = rng.choice([0, 0, 1, 1, 2, -2, rng.randint(1, 25), rng.randint(1, 25), rng.randint(1, 25)])
-        end = n - rng.choice([0, 0, 1, 3, 10])
+        # ... or BEYOND the last base (a GTF gene end larger than the FASTA record): the slice clamps
+        end = n - rng.choice([0, 0, 1, 3, 10]) if rng.random() < 0.7 else n + rng.choice([1, 2, 7, 1000])
         lo = max(1, start)
         inside = [it for it in introns if lo <= it[0] and it[1] <= end]
         for _k in range(3):      # make sure some planted introns lie inside the window, also hard at its borders
@@ -689,7 +994,7 @@ def gen_cases(ctx, rng=None):
         n = rng.choice([60, 90, 140])
         chrom, introns = G.planted_sequence(rng, n=n, start=1)
         hs = rng.randint(1, n // 2)
-        he = rng.randint(hs + 5, n)
+        he = rng.randint(hs + 5, n) if rng.random() < 0.75 else n + rng.choice([1, 3, 40, 1000])   # header beyond the contig
         reads = []
         for _k in range(rng.randint(0, 4)):
             a = rng.randint(1, n - 12)
@@ -717,6 +1022,10 @@ def gen_cases(ctx, rng=None):
         cases.append(("canon_history", dict(base, queries=qs[:6])))
         cases.append(("model_info", dict(base, models=[{"exons": r["cexons"], "strand": rng.choice("+-"), "attr": None} for r in reads])))
         cases.append(("model_info", dict(base, models=[{"exons": r["exons"], "strand": rng.choice("+-"), "attr": None} for r in reads])))
+    # printed attribute lists of transcript lines: reference transcripts with stale / repeated Canonical attributes
+    cases.append(("attr_tables", {}))
+    for _ in range(350 if quick else 4000):
+        cases.append(("attr_lines", G.attr_case(rng)))
     # novel-transcript decisions on well-formed intron chains (sorted, disjoint, inside the sequence), enough reads
     for _ in range(600 if quick else 8000):
         seq, chain = novel_chain(rng)
@@ -764,6 +1073,11 @@ def nontrivial(op, kw, mo):
         return mo != "."
     if op in ("canon_history", "model_info", "read_fields"):
         return any(x in (True, "True") for x in mo["out"])
+    if op == "attr_lines":
+        # a reference transcript that carries a Canonical attribute is printed with a recomputed definite flag
+        ref_has = {t["id"] for g in kw["genes"] for t in g["transcripts"] if any(k == "Canonical" for k, _ in t["attrs"])}
+        return any(tid in ref_has and any(k == "Canonical" and v in ("True", "False") for k, v in line)
+                   for tid, lines in mo["out"].items() for line in lines)
     if op == "detector":
         return any(x in ("+", "-") or (isinstance(x, list) and x != [0, 0]) for x in mo["out"])
     if op == "site_raw":
@@ -799,6 +1113,28 @@ def pyfaidx_cross_check(ctx):
             ops = [o for o in ops if o["k"] != "set" or ok(o["intron"])]
             cases.append(("detector", {"seq": seq, "ops": ops}))
             recs.append(fa[name])
+        # windows of set_reference_sequence on the real FastaRecord, also ending beyond the contig (pyfaidx clamps the slice)
+        wcases = []
+        for name, seq, introns in items:
+            for _w in range(3):
+                start = rng.choice([1, 1, 2, rng.randint(1, max(1, len(seq) // 3))])
+                end = len(seq) + rng.choice([0, -2, 1, 5, 1000, 1000])
+                pool = [it for it in introns if start <= it[0] and it[1] <= end] or [introns[0]]
+                hist = [[[list(i) for i in q], s_] for q, s_ in G.query_history(rng, pool)]
+                wcases.append((name, {"chrom": seq, "start": start, "end": end, "queries": hist}))
+        wouts = ctx.driver.run([vlib.req("C18.canon_history", **kw) for _, kw in wcases])
+        for (name, kw), mo in zip(wcases, wouts):
+            ctx.evaluations += 1
+            ctx.count("op:canon_history_pyfaidx")
+            if kw["end"] > len(kw["chrom"]):
+                ctx.count("canon_history_pyfaidx:window_ends_beyond_contig")
+            io = vlib.canon(impl_canon_history(dict(kw, chrom=fa[name])))
+            ctx.traces_validated += 1
+            mo = canon_model_out("canon_history", mo)
+            if not vlib.same(mo, io):
+                ctx.disagree("canon_history", kw, mo, io)
+            elif nontrivial("canon_history", kw, mo):
+                ctx.mark_nontrivial(["canon_history_pyfaidx", kw])
         outs = ctx.driver.run([vlib.req("C18.detector", **kw) for _, kw in cases])
         for (op, kw), mo, rec in zip(cases, outs, recs):
             ctx.evaluations += 1
@@ -827,8 +1163,15 @@ def correspondence(ctx):
         io = vlib.canon(impl_call(op, kw))
         ctx.traces_validated += 1
         mo = canon_model_out(op, mo)
+        if op == "attr_lines":
+            mo = attr_canon_model_out(model_kw(op, kw), mo)
+            ctx.count("attr_lines:path:%s:check=%s" % (kw["path"], kw["check"]))
+            if kw["end"] > len(kw["chrom"]):
+                ctx.count("attr_lines:window_ends_beyond_contig")
         if vlib.is_err(mo):
             ctx.count("model_error")
+        if op in ("canon_history", "model_info") and "chrom" in kw and kw["end"] > len(kw["chrom"]):
+            ctx.count("%s:window_ends_beyond_contig%s" % (op, ":loader" if kw.get("via") else ""))
         if op in ("canon_history", "model_info", "read_fields", "detector"):
             if isinstance(io, dict) and "out" in io:
                 for x in io["out"]:
@@ -982,6 +1325,35 @@ def oracle_case(mode, kw):
             if fresh != res[i]:
                 return ("strand_depends_on_history", {"op_index": i, "op": op, "got": res[i], "fresh": fresh})
         return None
+    if mode == "attr_lines":
+        # the clause of the pipeline oracle on the in-process path: every printed transcript line carries exactly one Canonical
+        # attribute (with --check_canonical; at most one without) and every value equals the flag recomputed from the chromosome;
+        # a model that already carries the attribute (dumped once before) keeps exactly that one
+        got = impl_attr_lines(kw)["out"]
+        items = [(t["id"], t["exons"], g["strand"], None) for g in kw["genes"] for t in g["transcripts"]] + \
+                [(m["transcript_id"], m["exons"], m["strand"], dict((k, v) for k, v in m["info"]).get("Canonical")) for m in kw["novel"]]
+        for tid, exons, strand, carried in items:
+            lines = got.get(tid, [])
+            if len(lines) != 1:
+                return ("transcript_line_count", {"transcript": tid, "lines": len(lines)})
+            vals = [v for k, v in lines[0] if k == "Canonical"]
+            ex = tl(exons)
+            introns = [(ex[j][1] + 1, ex[j + 1][0] - 1) for j in range(len(ex) - 1) if ex[j][1] + 1 < ex[j + 1][0]]
+            exp = expected_flag(kw["chrom"], introns, strand, 1)
+            detail = {"transcript": tid, "values": vals, "expected": exp, "carried": carried, "strand": strand, "introns": introns,
+                      "line": lines[0]}
+            if carried is not None:
+                # (the carried value is the test input's: exactly one value, the carried or the recomputed one)
+                if len(vals) != 1:
+                    return ("canonical_attr_not_unique", detail)
+                if vals[0] != carried and exp is not None and vals[0] != str(exp):
+                    return ("model_canonical_flag", detail)
+                continue
+            if len(vals) > 1 or (kw["check"] and len(vals) != 1):
+                return ("canonical_attr_not_unique", detail)
+            if exp is not None and any(v != str(exp) for v in vals):
+                return ("model_canonical_flag", detail)
+        return None
     if mode == "tables":
         t = impl_call("tables", {})
         if t["fwd"] != sorted(list(x) for x in G.FWD_PAIRS) or t["rev"] != sorted(list(x) for x in G.REV_PAIRS):
@@ -1014,6 +1386,14 @@ WITNESSES = [
     ("model_info", {"chrom": "AAAAGTCCCCCCAGTTTT", "start": 12, "end": 18, "via": "loader",
                     "kept": [{"exons": [[1, 4], [15, 18]], "cexons": [[1, 4], [15, 18]]}],
                     "models": [{"exons": [[1, 4], [15, 18]], "strand": "+", "attr": None}]}),
+    # Props/C18Attr canonical_attr_orig_witness: the reference transcript T already carries a (stale) Canonical "False"; before
+    # 'Canonical' entered the skip list of set_gene_attributes the printed line was ... Canonical "True"; exons "2"; Canonical "False";
+    ("attr_lines", {"chrom": "AAAAGTCCCCCCAGTTTT", "start": 1, "end": 18, "path": "extended", "check": True, "novel": [],
+                    "genes": [{"gene_id": "G", "strand": "+", "attrs": [],
+                               "transcripts": [{"id": "T", "exons": [[1, 4], [15, 18]], "attrs": [["Canonical", "False"], ["exons", "2"]]}]}]}),
+    ("attr_lines", {"chrom": "AAAAGTCCCCCCAGTTTT", "start": 1, "end": 40, "path": "locus", "check": True, "novel": [],
+                    "genes": [{"gene_id": "G", "strand": "+", "attrs": [],
+                               "transcripts": [{"id": "T", "exons": [[1, 4], [15, 18]], "attrs": [["Canonical", "False"], ["exons", "2"]]}]}]}),
 ]
 
 
@@ -1039,16 +1419,21 @@ def oracle(ctx, disagreements, broken):
     if ctx.tier == "quick" and not broken:
         keep = [c for c in cases if c[0] in ("tables",)] + rng.sample(cases, min(len(cases), 14000))
         cases = keep
+    per_kind = {}
     for op, kw in cases:
         if op in ("site_raw", "common_get_strand"):
             continue
         r = oracle_case(op, kw)
         n += 1
         if r:
-            ctx.fail(r[0], {"mode": op, "args": kw}, r[1])
+            per_kind[(r[0], op)] = per_kind.get((r[0], op), 0) + 1
+            if per_kind[(r[0], op)] <= 5:        # a few inputs per failure class; the pipeline scenarios still get their turn
+                ctx.fail(r[0], {"mode": op, "args": kw}, r[1])
             if len(ctx.failures) > 15:
                 break
     ctx.extra["oracle_inprocess_cases"] = n
+    if per_kind:
+        ctx.extra["oracle_inprocess_failures_per_class"] = {"%s/%s" % k: v for k, v in per_kind.items()}
     # 4. the real pipeline on synthetic genomes with antisense gene pairs sharing introns
     n_runs = 18 if ctx.tier == "quick" else 180
     if broken:
@@ -1069,6 +1454,24 @@ def oracle(ctx, disagreements, broken):
             ctx.fail(kind, {"mode": "pipeline", "args": inp}, detail)
         if len(ctx.failures) > 15:
             break
+    # 4b. the reference is itself an IsoQuant output: second run with --genedb = the extended annotation of the first
+    # (--check_canonical) run, one reference Canonical value falsified; clause: exactly one Canonical attribute per transcript
+    # line and it equals the recomputed value
+    rerun_cfg = [c for c in PIPE_CONFIGS if c[2] and c[0] in ("default", "rc_all", "high_memory", "threads2", "pacbio")]
+    n_rerun = 4 if ctx.tier == "quick" else 30
+    for i in range(n_rerun * (2 if broken else 1)):
+        if len(ctx.failures) > 15:
+            break
+        name, args, _ = rerun_cfg[i % len(rerun_cfg)]
+        inp = {"seed": ctx.seed * 1000 + 500 + i, "args": args, "genedb": True, "threads": 2 if name == "threads2" else 1,
+               "data_type": "pacbio_ccs" if name == "pacbio" else "nanopore", "lower_frac": [0.0, 0.5][i % 2], "hashseed": i % 3,
+               "n_chroms": 2, "loci": 4, "config": name + "+rerun", "rerun": True}
+        fails, stats = pipeline_case(inp)
+        runs.append(name + "+rerun")
+        for k, v in stats.items():
+            tot[k] = tot.get(k, 0) + v
+        for kind, detail in fails[:5]:
+            ctx.fail(kind, {"mode": "pipeline", "args": inp}, detail)
     ctx.extra["oracle_pipeline"] = {"runs": len(runs), "configs": sorted(set(runs)), "totals": tot}
     ctx.extra["oracle_wall_s"] = round(ctx.elapsed() - t_start, 1)
     # smallest failing input first (it becomes the head of the replay file)
